@@ -82,6 +82,21 @@ Definition op_bundle_read (args : list sx) : sx :=
   | _ => bad_args
   end.
 
+(* bundle_write_keeps_input bundle : the serializers leave their argument as it was *)
+Definition op_bundle_write_keeps_input (args : list sx) : sx :=
+  match args with
+  | [b] =>
+      match bundle_of_sx b with
+      | Some b' => if b_write_taint b' then unknown_sx else
+                   match b_write b' with
+                   | Panic => SL [sym "panic"]
+                   | r => SL [sx_bytes_R r; bundle_sx b']
+                   end
+      | None => bad_args
+      end
+  | _ => bad_args
+  end.
+
 (* bundle_read_edit bytes tab i : Read, then edit exchange i of the RESULT in place (add a
    response header, flip the first body byte); every other exchange must be unaffected. *)
 Fixpoint edit_nth (i : nat) (xs : list bexchange) : list bexchange :=
@@ -213,6 +228,7 @@ Definition dispatch_bundle (op : bytes) (args : list sx) : option sx :=
   if bytes_eqb op (s2b "bundle_write") then Some (op_bundle_write args)
   else if bytes_eqb op (s2b "bundle_read") then Some (op_bundle_read args)
   else if bytes_eqb op (s2b "bundle_read_edit") then Some (op_bundle_read_edit args)
+  else if bytes_eqb op (s2b "bundle_write_keeps_input") then Some (op_bundle_write_keeps_input args)
   else if bytes_eqb op (s2b "bundle_cycle") then Some (op_bundle_cycle args)
   else if bytes_eqb op (s2b "entries_order") then Some (op_entries_order args)
   else if bytes_eqb op (s2b "variants") then Some (op_variants args)
